@@ -11,6 +11,8 @@ for d in sorted(glob.glob(os.path.join(R, "seeded", "*", ""))):
         return s if len(s) <= n else s[: n - 1] + "…"
     ok = all(c.get(k) for k in ("applies", "builds", "demo_passes_unpatched", "demo_fails_patched", "own_tests_pass_patched"))
     verdict = "not caught" if not c.get("check_fired") else ("caught (no failing input: broken proof/tie only)" if c.get("check_no_failing_input") else "caught, concrete failing input")
+    if m.get("also_caught_by"):
+        verdict += "; by " + cell(m["also_caught_by"], 200)
     rows.append(f"| {os.path.basename(d[:-1])} | {cell(m.get('what_breaks'), 230)} | {cell(m.get('needs'), 170)} | {'yes' if ok else 'NO'} | {verdict} |")
 tab = "| seed | change (as described by its author) | needs, to manifest | independently confirmed (applies, builds, own tests pass, demo fails/passes) | result of the check on the patched tree |\n|---|---|---|---|---|\n" + "\n".join(rows) + "\n"
 p = os.path.join(R, "DESIGN.md")
